@@ -265,18 +265,27 @@ impl Object {
     }
 
     /// Frees the memory address this pointer points to
-    /// Plus all addresses inside the array (if it is an array)
+    /// Plus everything reachable through it (if it is an array), at any depth.
+    /// Every heap object is freed exactly once, also when it occurs in more than one array
+    /// or when an array (indirectly) contains itself.
     pub fn free_recursive(self) {
-        if self.tag() == Type::Array {
-            // Safety: We've asserted the type
-            unsafe {
-                for o in self.as_vec_unchecked() {
-                    o.free();
-                }
+        let mut seen = std::collections::HashSet::new();
+        let mut found = Vec::new();
+        let mut pending = vec![self];
+        while let Some(o) = pending.pop() {
+            if !o.is_heap_allocated() || !seen.insert(o.as_ptr()) {
+                continue;
             }
+            if o.tag() == Type::Array {
+                // Safety: We've asserted the type
+                pending.extend(unsafe { o.as_vec_unchecked() }.iter().copied());
+            }
+            found.push(o);
         }
 
-        self.free();
+        for o in found {
+            o.free();
+        }
     }
 }
 
